@@ -179,7 +179,8 @@ Definition TB_EXT : string := ".pt.trace.json".
 
 Definition overall_name (target : string) : string :=
   if ends_with ".json" target && negb (ends_with TB_EXT target)
-  then replace_all ".json" TB_EXT target else target.
+  then substring 0 (String.length target - 5) target ++ TB_EXT     (* only the extension (fix C18c) *)
+  else target.
 
 Definition fbase (target : string) : string :=
   if ends_with TB_EXT target
